@@ -298,6 +298,24 @@ fn logical_me(w: &World) -> Option<usize> {
     w.sink.with_current(|l| l.self_ids.iter().position(|x| *x == Some(id)))
 }
 
+/// A value owned by a task: captured by its closure / future (`cap`) or living on its stack (`stack`).
+/// Counted in LIVE so that values an execution leaves behind (never-run closures, suspended stacks) are seen
+/// by the next execution's `live_at_start`.
+pub struct LiveGuard;
+
+impl LiveGuard {
+    pub fn new() -> Self {
+        LIVE.fetch_add(1, std::sync::atomic::Ordering::SeqCst);
+        LiveGuard
+    }
+}
+
+impl Drop for LiveGuard {
+    fn drop(&mut self) {
+        LIVE.fetch_sub(1, std::sync::atomic::Ordering::SeqCst);
+    }
+}
+
 pub struct TlsVal {
     w: Option<Arc<World>>,
     key: usize,
@@ -853,14 +871,27 @@ async fn run_task(w: Arc<World>, me: usize, is_async: bool, ends: Ends) -> i64 {
                     let ends2 = wr.take_ends(t2);
                     match prog.tasks[t2].kind {
                         TaskKind::Thread => {
-                            let h = thread::Builder::new().name(format!("T{t2}")).spawn(move || thread_main(w2, t2, ends2)).unwrap();
+                            let cap = LiveGuard::new();
+                            let h = thread::Builder::new()
+                                .name(format!("T{t2}"))
+                                .spawn(move || {
+                                    let _cap = cap;
+                                    let _stack = LiveGuard::new();
+                                    thread_main(w2, t2, ends2)
+                                })
+                                .unwrap();
                             *wr.threads[t2].lock().unwrap() = Some(h.thread().clone());
                             let (hid, hname) = (usize::from(h.thread().id()), h.thread().name().map(|s| s.to_string()));
                             wr.sink.with_current(|l| l.evts.push(Evt::SpawnedIdentity { task: t2, id: hid, name: hname }));
                             handles[t2] = Some(Handle::Thread(h));
                         }
                         TaskKind::Async => {
-                            let h = sfuture::spawn_local(run_task(w2, t2, true, ends2));
+                            let cap = LiveGuard::new();
+                            let h = sfuture::spawn_local(async move {
+                                let _cap = cap;
+                                let _stack = LiveGuard::new();
+                                run_task(w2, t2, true, ends2).await
+                            });
                             handles[t2] = Some(Handle::Fut(h));
                         }
                     }
@@ -1075,6 +1106,14 @@ async fn run_task(w: Arc<World>, me: usize, is_async: bool, ends: Ends) -> i64 {
                     .map(|c| (*c, wr.take_ends(*c)))
                     .collect();
                 let wref = &w;
+                // a Join of a plain thread right behind the Scope op is performed inside the scope body
+                let inner_join = match prog.tasks[me].ops.get(pc + 1) {
+                    Some(Op::Join(t)) if !cs.contains(t) && !is_async && matches!(handles[*t], Some(Handle::Thread(_))) => match handles[*t].take() {
+                        Some(Handle::Thread(h)) => Some((*t, h)),
+                        _ => None,
+                    },
+                    _ => None,
+                };
                 thread::scope(|s| {
                     for (c, ends) in kids {
                         let w2 = wref.clone();
@@ -1088,6 +1127,13 @@ async fn run_task(w: Arc<World>, me: usize, is_async: bool, ends: Ends) -> i64 {
                         };
                         wr.sink.with_current(|l| l.spawn_ids[c] = Some(id));
                         *wr.threads[c].lock().unwrap() = Some(h.thread().clone());
+                    }
+                    if let Some((t, h)) = inner_join {
+                        let v = h.join().expect("joined thread panicked");
+                        wr.sink.with_current(|l| {
+                            l.joined[t] = true;
+                            l.evts.push(Evt::JoinRet { joiner: me, target: t, value: v });
+                        });
                     }
                 });
                 wr.sink.with_current(|l| l.evts.push(Evt::ScopeRet { owner: me }));
